@@ -58,7 +58,12 @@ def run(tier):
         runs.append((a, b, dict(cfgname=cn, n=per, seed=SEED, index=i)))
     # counter wrap-around (DES: 32-bit, AES: 64-bit): the counter is positioned just below the wrap (verification hook) and the
     # session goes on sending across it - with replies, refusals and timeouts in between
-    for i, cn in enumerate(["v3-md5-des", "v3-sha1-aes", "v3-sha1-des", "v3-md5-aes"]):
+    from vlib import env as _env
+    wrapcfgs = ["v3-md5-des", "v3-sha1-aes", "v3-sha1-des", "v3-md5-aes"]
+    if _env.hooks_level() != "full":
+        wrapcfgs = []
+        chk.assumptions.append("hooks level '%s': the wrap-around sessions (verif_set_salt) were skipped for this tree" % _env.hooks_level())
+    for i, cn in enumerate(wrapcfgs):
         top = 2 ** 32 if "des" in cn else 2 ** 64
         s = [{"a": "send", "n": 5}, {"a": "reply-enc"}, {"a": "set-salt", "v": top - 4 - i}]
         for j in range(12):
